@@ -222,7 +222,8 @@ def generate(ctx, n_ops):
             if res.startswith("ok\tq"):
                 ctx.nq += 1
         for _ in range(rng.randint(1, 3)):
-            lm = rng.choice(["i:0", "i:20", "i:-30", ftok(rng.uniform(-200, 200)), "i:120", ftok(-3.0103)])
+            lm = rng.choice(["i:0", "i:20", "i:-30", ftok(rng.uniform(-200, 200)), "i:120", ftok(-3.0103),
+                             "i:1", "i:3", "i:-7", "i:15"])      # odd ints: exponent/2 for root-power references is not an integer
             if pfx[1] > 0:
                 # keep the denoted quantity inside the float range: |level * prefix| <= ~200 base steps
                 span = 200.0 / (pfx[0] ** pfx[1])
